@@ -143,7 +143,8 @@ func (c *syncMap) deleteExpired(before time.Time) {
 	c.data.Range(func(key, value interface{}) bool {
 		cacheEntry := value.(*TraitEntry) //nolint // Panic on type assertion failure is fine here.
 		if e := atomic.LoadInt64(&cacheEntry.E); e != 0 && e < beforeTS {
-			c.data.Delete(key)
+			// Entry may have been replaced by a concurrent write, fresh value has to stay.
+			c.deleteSame(key, cacheEntry)
 		}
 
 		return true
